@@ -19,7 +19,7 @@ navis.set_loggers('ERROR')
 
 
 # streams of later properties, added here once their driver commands are linked into navisdrv
-EXTRA_STREAMS = ['c17', 'c11']
+EXTRA_STREAMS = ['c17', 'c11', 'c13']
 
 
 def optional(name):
